@@ -667,12 +667,19 @@ class DAGRunConcurrentManager(DAGRunManagerLike):
 
         result = await self._run_dag(dag=case_dag)
 
-        if dag.is_oneof and isinstance(result, BaseException):
+        if dag.is_oneof:
             # The nodes of the selected case are not a part of the OneOf subgraph (the case edges are filtered out).
             # A failure among them is the failure of the switch: keep it as the result of the switch so that
             # the OneOf subgraph is marked as failed instead of passing the failure on as a value.
-            self._node_storage.set_node_result(node_id, result)
-            await self.__unlock_itself(dag.dest)
+            case_node_id = self._node_storage.get_switch_result(node_id).node_id
+
+            if not isinstance(result, BaseException) and self._node_storage.exists_node_error(case_node_id):
+                # The case had failed before the switch selected it (nothing was left to run for it)
+                result = self._node_storage.get_node_result(case_node_id)
+
+            if isinstance(result, BaseException):
+                self._node_storage.set_node_result(node_id, result)
+                await self.__unlock_itself(dag.dest)
 
         # The selected case may have been computed (and its notifications sent) before the switch was resolved.
         # Hence, the consumers of the switch have to re-check their dependencies now.
